@@ -1,10 +1,1484 @@
-//! C24 — not built yet.
+//! C24 A crash never leaves an RRDP copy that is silently wrong.
+//!
+//! Crash-point enumeration (E-crash, DESIGN §0.8) over RRDP client updates.
+//!
+//! * A generated scenario is a publisher history v0 → v1 → v2 (→ follow-ups) over 8 URIs and six content
+//!   sizes (three of them share one archive page class, so in-place rewrites, re-allocations into freed
+//!   space, appends and end-of-file truncations all occur). Four kinds of v1→v2 step: snapshot only,
+//!   one multi-element delta, several deltas, one delta followed by a new session.
+//! * The *pre-state* (local copy at v1) is produced by routinator's real collector: snapshot at v0, then
+//!   a delta update to v1, so the archive already contains freed blocks.
+//! * The *victim* is a child process (`rvchild rrdp-update …`) that performs the update v1 → v2 against
+//!   the in-harness HTTPS server of the parent and is killed (`abort()`, hook `verif::kill_point`) at kill
+//!   point k; pass 0 traces the M points of the scenario. All k in 0..=M run when M ≤ 400, else the first
+//!   and last 20 points, every point whose label differs from its predecessor's and a seeded sample.
+//! * Afterwards the honest server continues (same version, more deltas, deltas withheld, new session) and
+//!   1–3 further updates run in-process on the post-kill cache, the earlier ones optionally with a transient
+//!   HTTP error (notification 500 / cut, snapshot 500 / cut, first needed delta 404, last delta cut, delta
+//!   and snapshot both failing); the notification is served with an honest ETag in half of the scenarios,
+//!   so a 304 is answered exactly when the client holds the current notification.
+//! * Oracle, per run after the crash: `Run::repository` hands out an RRDP repository ⇒ the archive (read from a
+//!   copy of the file with routinator's own reader) holds exactly the server's objects at the notified
+//!   serial, byte for byte, the state record names that session and serial, and `load_object` agrees for
+//!   every URI of the universe. Ok(None) / a failed run are "not updated" and always acceptable.
+//!   Uninterrupted updates (k = 0 and the pre-state construction) are judged by the same rule.
 
+use std::collections::{BTreeMap, BTreeSet};
+use std::path::{Path, PathBuf};
+use std::process::Command;
+use std::sync::Arc;
+use std::time::Duration;
+
+use bytes::Bytes;
+use proptest::prelude::*;
+use routinator::collector::{Collector, RrdpArchive};
+use routinator::config::Config;
+use rpki::uri;
+use serde::{Deserialize, Serialize};
+use uuid::Uuid;
+
+use crate::clibin::{parallel_map, run_watchdog};
 use crate::core::*;
+use crate::erun::scratch_base;
+use crate::httpsrv::*;
 
-pub const IMPLEMENTED: bool = false;
+pub const IMPLEMENTED: bool = true;
 
-pub fn run(_ctx: &Ctx, _rep: &mut Report, _replay: Option<&serde_json::Value>) {
-    eprintln!("C24: check not implemented");
-    std::process::exit(2);
+const HOST: &str = "rrdp.rpki.test";
+const N_URIS: u8 = 8;
+const SIZES: [usize; 6] = [1, 60, 120, 200, 700, 3000];
+const N_SIZES: u8 = SIZES.len() as u8;
+const MAX_DELTA_COUNT: usize = 10;
+const MAX_POINTS: usize = 400;
+/// failure class shared with C25's finding `C25/modified-copy-reused-after-failed-update`
+const WHAT_REUSE: &str = "modified-copy-reused-after-failed-update";
+
+/// (uri index, Some(content index) = publish/update | None = withdraw)
+pub type Change = (u8, Option<u8>);
+pub type Delta = Vec<Change>;
+
+#[derive(Serialize, Deserialize, Clone, Copy, Debug, PartialEq, Eq)]
+pub enum Kind {
+    SnapshotOnly,
+    SingleDelta,
+    MultiDelta,
+    DeltaThenNewSession,
+}
+
+impl Kind {
+    fn name(self) -> &'static str {
+        match self {
+            Kind::SnapshotOnly => "snapshot-only",
+            Kind::SingleDelta => "single-delta",
+            Kind::MultiDelta => "multi-delta",
+            Kind::DeltaThenNewSession => "delta-then-new-session",
+        }
+    }
+}
+
+const KINDS: [Kind; 4] = [Kind::SnapshotOnly, Kind::SingleDelta, Kind::MultiDelta, Kind::DeltaThenNewSession];
+
+#[derive(Serialize, Deserialize, Clone, Debug, PartialEq, Eq)]
+pub struct Scenario {
+    /// seeds the session ids
+    pub seed: u64,
+    pub kind: Kind,
+    /// notification served with an ETag and honest conditional handling
+    pub etag: bool,
+    /// first published object set (one delta, serial 2); the client takes the snapshot
+    pub v0: Vec<(u8, u8)>,
+    /// deltas leading to v1; the client follows them (pre-state of the victim)
+    pub v1: Vec<Delta>,
+    /// deltas leading to v2; the victim's update (kind SnapshotOnly: the server then withholds all deltas)
+    pub v2: Vec<Delta>,
+}
+
+#[derive(Serialize, Deserialize, Clone, Debug, PartialEq, Eq)]
+pub enum Advance {
+    /// server unchanged
+    Same,
+    /// further deltas
+    Deltas(Vec<Delta>),
+    /// a change, after which the server lists no deltas at all
+    Withheld(Delta),
+    /// new session (serial 1), optionally followed by one delta in the new session
+    NewSession(Option<Delta>),
+}
+
+#[derive(Serialize, Deserialize, Clone, Copy, Debug, PartialEq, Eq)]
+pub enum Fault {
+    None,
+    N500,
+    NCut,
+    S500,
+    SCut,
+    /// first needed delta answers 404 (snapshot fallback works)
+    DFirst404,
+    /// last needed delta is cut mid-body after the earlier ones were applied (snapshot fallback works)
+    DLastCut,
+    /// first needed delta 404 and snapshot 500: the whole update fails
+    DFirst404S500,
+    /// last needed delta cut and snapshot 500: the whole update fails after deltas were applied in place
+    DLastCutS500,
+    /// NOT honest, never generated: a lagging cache still serves the notification of v1 (directed probe of the
+    /// relation to C25's modified-copy finding only)
+    NStaleV1,
+}
+
+impl Fault {
+    fn name(self) -> &'static str {
+        match self {
+            Fault::None => "none",
+            Fault::N500 => "N500",
+            Fault::NCut => "Ncut",
+            Fault::S500 => "S500",
+            Fault::SCut => "Scut",
+            Fault::DFirst404 => "Dfirst404",
+            Fault::DLastCut => "Dlastcut",
+            Fault::DFirst404S500 => "Dfirst404+S500",
+            Fault::DLastCutS500 => "Dlastcut+S500",
+            Fault::NStaleV1 => "stale-notification-of-v1",
+        }
+    }
+}
+
+#[derive(Serialize, Deserialize, Clone, Debug, PartialEq, Eq)]
+pub struct Follow {
+    pub adv: Advance,
+    pub fault: Fault,
+}
+
+impl Follow {
+    fn name(&self) -> String {
+        let a = match &self.adv {
+            Advance::Same => "same".to_string(),
+            Advance::Deltas(d) => format!("deltas{}", d.len()),
+            Advance::Withheld(_) => "withheld".to_string(),
+            Advance::NewSession(None) => "newsession".to_string(),
+            Advance::NewSession(Some(_)) => "newsession+delta".to_string(),
+        };
+        format!("{}+{}", a, self.fault.name())
+    }
+}
+
+fn follow_names(f: &[Follow]) -> String {
+    if f.is_empty() {
+        "-".to_string()
+    } else {
+        f.iter().map(|x| x.name()).collect::<Vec<_>>().join(">")
+    }
+}
+
+/// One executed case: scenario, kill point (0 = the victim is not killed), what follows.
+#[derive(Serialize, Deserialize, Clone, Debug, PartialEq, Eq)]
+pub struct Case {
+    pub sc: Scenario,
+    pub k: u32,
+    /// kill point of a second victim run on the copy the first crash left (0 = no second victim)
+    #[serde(default)]
+    pub k2: u32,
+    pub follow: Vec<Follow>,
+}
+
+/// What the strategy generates per scenario: the scenario, a pool of follow-up plans and the sampling seed.
+#[derive(Clone, Debug)]
+pub struct Gen {
+    pub sc: Scenario,
+    pub plans: Vec<Vec<Follow>>,
+    pub sample_seed: u64,
+}
+
+//------------------------------------------------------------------------------------------
+// Content and publisher
+
+pub fn obj_uri(u: u8) -> String {
+    format!("rsync://rv.rpki.test/repo/o{}.roa", u % N_URIS)
+}
+
+pub fn content(u: u8, c: u8) -> Bytes {
+    let u = u % N_URIS;
+    let c = c % N_SIZES;
+    let len = SIZES[c as usize];
+    if len == 1 {
+        return Bytes::from(vec![b'A' + u * N_SIZES + c]);
+    }
+    let mut v = format!("{}:{}:", u, c).into_bytes();
+    while v.len() < len {
+        v.push(b'a' + ((v.len() as u8).wrapping_mul(7).wrapping_add(u.wrapping_mul(3)).wrapping_add(c) % 26));
+    }
+    v.truncate(len);
+    Bytes::from(v)
+}
+
+fn universe() -> Vec<uri::Rsync> {
+    (0..N_URIS).map(|u| uri::Rsync::from_string(obj_uri(u)).expect("uri")).collect()
+}
+
+fn to_changes(d: &Delta) -> Vec<(String, Option<Bytes>)> {
+    d.iter().map(|(u, c)| (obj_uri(*u), c.map(|c| content(*u, c)))).collect()
+}
+
+fn server_v0(sc: &Scenario) -> RrdpServer {
+    let mut s = RrdpServer::new(HOST, "rrdp", sc.seed);
+    s.max_deltas = 24;
+    let first: Delta = sc.v0.iter().map(|(u, c)| (*u, Some(*c))).collect();
+    s.apply(&to_changes(&first));
+    s
+}
+
+fn to_v1(s: &mut RrdpServer, sc: &Scenario) {
+    for d in &sc.v1 {
+        s.apply(&to_changes(d));
+    }
+}
+
+fn to_v2(s: &mut RrdpServer, sc: &Scenario) {
+    for d in &sc.v2 {
+        s.apply(&to_changes(d));
+    }
+    if sc.kind == Kind::SnapshotOnly {
+        s.trim(0);
+    }
+}
+
+fn advance(s: &mut RrdpServer, adv: &Advance) {
+    match adv {
+        Advance::Same => {}
+        Advance::Deltas(ds) => {
+            for d in ds {
+                s.apply(&to_changes(d));
+            }
+        }
+        Advance::Withheld(d) => {
+            s.apply(&to_changes(d));
+            s.trim(0);
+        }
+        Advance::NewSession(d) => {
+            s.new_session();
+            if let Some(d) = d {
+                s.apply(&to_changes(d));
+            }
+        }
+    }
+}
+
+fn notification_resp(server: &RrdpServer, etag: bool) -> Resp {
+    let body = server.notification_xml();
+    if etag {
+        let tag = format!("\"{}\"", &sha256_hex(&body)[..16]);
+        Resp::ok(body).etag(&tag).conditional()
+    } else {
+        Resp::ok(body)
+    }
+}
+
+/// Puts the truthful files of the current version on the HTTPS server.
+fn install(srv: &HttpsServer, server: &RrdpServer, etag: bool) {
+    srv.clear_host(HOST);
+    srv.set(HOST, &server.notify_path(), notification_resp(server, etag));
+    srv.set(HOST, &server.snapshot_path(), Resp::ok(server.snapshot_xml()));
+    for d in &server.deltas {
+        srv.set(HOST, &server.delta_path(d.serial), Resp::ok(render_delta(&server.session, d.serial, &d.els)));
+    }
+}
+
+//------------------------------------------------------------------------------------------
+// Client side (shared by the parent and the child role)
+
+pub fn c24_config(dir: &Path, proxy_port: u16) -> Config {
+    let mut c = Config::default_with_paths(dir.join("routinator.conf"), dir.join("cache"));
+    c.no_rir_tals = true;
+    c.rrdp_root_certs = vec![tls_ca_path()];
+    c.rrdp_proxies = vec![format!("http://127.0.0.1:{}", proxy_port)];
+    c.rrdp_timeout = Some(Duration::from_secs(60));
+    c.rrdp_connect_timeout = Some(Duration::from_secs(20));
+    c.disable_rsync = true;
+    c.rrdp_max_delta_count = MAX_DELTA_COUNT;
+    c.log_repository_issues = std::env::var_os("RV_LOG").is_some();
+    c
+}
+
+/// What one client update reported.
+#[derive(Serialize, Deserialize, Clone, Debug, PartialEq, Eq)]
+pub struct UpdateOut {
+    /// "updated" (RRDP repository handed out) | "none" | "non-rrdp" | "retry" | "fatal" | "infra:<what>"
+    pub result: String,
+    /// for "updated": uri -> "absent" | "err" | "<len>:<sha256>" as returned by `load_object`
+    pub loads: BTreeMap<String, String>,
+}
+
+fn digest(data: &[u8]) -> String {
+    format!("{}:{}", data.len(), sha256_hex(data))
+}
+
+fn ca_repo() -> uri::Rsync {
+    uri::Rsync::from_string("rsync://rv.rpki.test/repo/".into()).expect("uri")
+}
+
+/// The CA certificate naming `notify` as its rpkiNotify, issued once per process (parent only: the child reads
+/// the bytes from `<dir>/ta.cer` so that it does not have to load the key pool).
+fn ca_cert_bytes(notify: &uri::Https) -> Bytes {
+    static CACHE: std::sync::Mutex<Option<(String, Bytes)>> = std::sync::Mutex::new(None);
+    let mut c = CACHE.lock().unwrap_or_else(|e| e.into_inner());
+    if let Some((n, b)) = c.as_ref() {
+        if n == notify.as_str() {
+            return b.clone();
+        }
+    }
+    let b = ta_cert_bytes(0, &ca_repo(), Some(notify));
+    *c = Some((notify.as_str().to_string(), b.clone()));
+    b
+}
+
+fn ca_from_bytes(bytes: Bytes) -> Option<Arc<routinator::engine::CaCert>> {
+    use rpki::repository::cert::Cert;
+    use rpki::repository::tal::{TalInfo, TalUri};
+    let cert = Cert::decode(bytes).ok()?;
+    let cert = cert.validate_ta(TalInfo::from_name("rv".into()).into_arc(), false).ok()?;
+    let uri = TalUri::Rsync(ca_repo().join(b"ta.cer").ok()?);
+    routinator::engine::CaCert::root(cert, uri, 0).ok()
+}
+
+/// A collector over `<dir>/cache` reaching the HTTPS server through its proxy port.
+pub fn new_collector(dir: &Path, proxy_port: u16) -> Result<Collector, String> {
+    let config = c24_config(dir, proxy_port);
+    let mut collector = Collector::new(&config).map_err(|_| "collector_new".to_string())?;
+    collector.ignite().map_err(|_| "collector_ignite".to_string())?;
+    Ok(collector)
+}
+
+/// One client update through routinator's collector: `Collector::start` → `Run::repository(&ca)`.
+pub fn client_update(dir: &Path, proxy_port: u16, notify: &uri::Https) -> UpdateOut {
+    match new_collector(dir, proxy_port) {
+        Ok(c) => client_update_with(&c, ca_cert_bytes(notify)),
+        Err(e) => UpdateOut { result: format!("infra:{}", e), loads: BTreeMap::new() },
+    }
+}
+
+/// One client update with an existing collector (a long-running routinator keeps its collector across runs; the
+/// collector holds no per-repository state, so this equals a restart as far as the local copy is concerned).
+pub fn client_update_with(collector: &Collector, ca_bytes: Bytes) -> UpdateOut {
+    let Some(ca) = ca_from_bytes(ca_bytes) else {
+        return UpdateOut { result: "infra:ca_cert".into(), loads: BTreeMap::new() };
+    };
+    let run = collector.start();
+    let res = run.repository(&ca);
+    let mut loads = BTreeMap::new();
+    let result = match &res {
+        Ok(Some(repo)) if repo.is_rrdp() => {
+            for u in universe() {
+                let v = match repo.load_object(&u) {
+                    Ok(Some(d)) => digest(&d),
+                    Ok(None) => "absent".to_string(),
+                    Err(_) => "err".to_string(),
+                };
+                loads.insert(u.to_string(), v);
+            }
+            "updated"
+        }
+        Ok(Some(_)) => "non-rrdp",
+        Ok(None) => "none",
+        Err(e) if e.is_fatal() => "fatal",
+        Err(_) => "retry",
+    };
+    UpdateOut { result: result.to_string(), loads }
+}
+
+/// `rvchild rrdp-update <dir> <notify uri> <proxy port>`: one client update, result as JSON on stdout.
+/// Kill points are armed through the environment by the parent.
+pub fn child_rrdp_update(args: &[String]) -> i32 {
+    // no core files from the intended abort()
+    unsafe {
+        let lim = libc::rlimit { rlim_cur: 0, rlim_max: 0 };
+        libc::setrlimit(libc::RLIMIT_CORE, &lim);
+    }
+    if args.len() < 3 {
+        eprintln!("usage: rvchild rrdp-update <dir> <notify uri> <proxy port>");
+        return 2;
+    }
+    let dir = PathBuf::from(&args[0]);
+    let Ok(notify) = uri::Https::from_string(args[1].clone()) else {
+        eprintln!("bad notify uri");
+        return 2;
+    };
+    let Ok(port) = args[2].parse::<u16>() else {
+        eprintln!("bad port");
+        return 2;
+    };
+    let _ = notify;
+    let Ok(ca_bytes) = std::fs::read(dir.join("ta.cer")) else {
+        eprintln!("no ta.cer in {}", dir.display());
+        return 2;
+    };
+    let out = match new_collector(&dir, port) {
+        Ok(c) => client_update_with(&c, Bytes::from(ca_bytes)),
+        Err(e) => UpdateOut { result: format!("infra:{}", e), loads: BTreeMap::new() },
+    };
+    println!("{}", serde_json::to_string(&out).expect("json"));
+    if out.result.starts_with("infra:") {
+        2
+    } else {
+        0
+    }
+}
+
+//------------------------------------------------------------------------------------------
+// Reading the local copy without touching it
+
+#[derive(Debug)]
+struct Inspect {
+    exists: bool,
+    objects: Result<BTreeMap<String, Bytes>, String>,
+    state: Result<(Uuid, u64), String>,
+    verify_ok: bool,
+}
+
+/// Reads objects and state from a *copy* of the archive file (routinator's readers delete a file they find corrupt).
+fn inspect(apath: &Path, scratch: &Path) -> Inspect {
+    if !apath.exists() {
+        return Inspect { exists: false, objects: Err("no archive".into()), state: Err("no archive".into()), verify_ok: false };
+    }
+    let copy = scratch.join("inspect.bin");
+    let fresh = || -> bool {
+        let _ = std::fs::remove_file(&copy);
+        std::fs::copy(apath, &copy).is_ok()
+    };
+    let mut verify_ok = false;
+    if fresh() {
+        verify_ok = RrdpArchive::verify(&copy).is_ok();
+    }
+    let objects = (|| -> Result<BTreeMap<String, Bytes>, String> {
+        if !fresh() {
+            return Err("copy failed".into());
+        }
+        let a = RrdpArchive::open(Arc::new(copy.clone())).map_err(|_| "archive does not open".to_string())?;
+        let mut res = BTreeMap::new();
+        for item in a.objects().map_err(|_| "objects() failed".to_string())? {
+            let (u, d) = item.map_err(|_| "object unreadable".to_string())?;
+            if res.insert(u.to_string(), d).is_some() {
+                return Err(format!("archive lists {} twice", u));
+            }
+        }
+        Ok(res)
+    })();
+    let state = (|| -> Result<(Uuid, u64), String> {
+        if !fresh() {
+            return Err("copy failed".into());
+        }
+        let a = RrdpArchive::open(Arc::new(copy.clone())).map_err(|_| "archive does not open".to_string())?;
+        let st = a.load_state().map_err(|_| "state unreadable".to_string())?;
+        Ok((st.session, st.serial))
+    })();
+    let _ = std::fs::remove_file(&copy);
+    Inspect { exists: true, objects, state, verify_ok }
+}
+
+fn diff(want: &BTreeMap<String, Bytes>, got: &BTreeMap<String, Bytes>) -> String {
+    let keys: BTreeSet<&String> = want.keys().chain(got.keys()).collect();
+    keys.into_iter()
+        .filter(|u| want.get(*u) != got.get(*u))
+        .map(|u| format!("{} server={} local={}", u.rsplit('/').next().unwrap_or(u), want.get(u).map(|d| digest(d)[..14.min(digest(d).len())].to_string()).unwrap_or("absent".into()), got.get(u).map(|d| digest(d)[..14.min(digest(d).len())].to_string()).unwrap_or("absent".into())))
+        .collect::<Vec<_>>()
+        .join("; ")
+}
+
+/// The success clause of the statement: the update reported success ⇒ local copy == server's objects at the
+/// notified (session, serial), state names it, `load_object` agrees. Returns (what, message) on a breach.
+fn judge_updated(out: &UpdateOut, insp: &Inspect, server: &Ver) -> Option<(&'static str, String)> {
+    let want = &server.objects;
+    if !insp.exists {
+        return Some(("success-without-archive", "update reported successful but there is no archive file".into()));
+    }
+    match &insp.objects {
+        Err(e) => return Some(("success-with-unreadable-archive", format!("update reported successful but the archive cannot be read: {}", e))),
+        Ok(got) => {
+            if got != want {
+                return Some(("success-with-divergent-content", format!("update reported successful at session {} serial {} but the archive differs from the server's object set: {}", server.session, server.serial, diff(want, got))));
+            }
+        }
+    }
+    match &insp.state {
+        Err(e) => return Some(("success-with-unreadable-state", e.clone())),
+        Ok((sess, ser)) => {
+            if *sess != server.session || *ser != server.serial {
+                return Some(("success-with-wrong-state", format!("notified session {} serial {}, recorded session {} serial {}", server.session, server.serial, sess, ser)));
+            }
+        }
+    }
+    for u in universe() {
+        let w = want.get(u.as_str()).map(|d| digest(d)).unwrap_or_else(|| "absent".to_string());
+        let g = out.loads.get(u.as_str()).cloned().unwrap_or_else(|| "missing".to_string());
+        if w != g {
+            return Some(("load-object-differs", format!("load_object({}) = {} but the server has {} at session {} serial {}", u, g, w, server.session, server.serial)));
+        }
+    }
+    None
+}
+
+/// A published version: what a notification names and the objects the server held then.
+#[derive(Clone, Debug)]
+pub struct Ver {
+    session: Uuid,
+    serial: u64,
+    objects: BTreeMap<String, Bytes>,
+}
+
+fn ver(server: &RrdpServer) -> Ver {
+    Ver { session: server.session, serial: server.serial, objects: server.objects.clone() }
+}
+
+//------------------------------------------------------------------------------------------
+// Pre-state and kill-point trace of a scenario
+
+pub struct Template {
+    /// bytes of the archive file holding v1
+    archive: Vec<u8>,
+    v1: (Uuid, u64),
+    v1_objects: BTreeMap<String, Bytes>,
+    /// the notification file of v1 (what a lagging cache would still serve)
+    v1_notification: Vec<u8>,
+    /// labels of the kill points 1..=M of the uninterrupted victim run
+    labels: Vec<String>,
+    /// how the client reached v1 ("delta" expected)
+    v1_path: &'static str,
+}
+
+fn rvchild_exe() -> PathBuf {
+    std::env::current_exe().expect("current_exe").with_file_name("rvchild")
+}
+
+fn read_trace(path: &Path) -> Vec<String> {
+    std::fs::read_to_string(path).map(|s| s.lines().filter_map(|l| l.split_once(' ').map(|x| x.1.to_string())).collect()).unwrap_or_default()
+}
+
+struct Victim {
+    /// None = killed
+    out: Option<UpdateOut>,
+    labels: Vec<String>,
+}
+
+/// Runs the victim child on `dir` against the server at `port`; `k` = 0 runs it to completion.
+fn run_victim(dir: &Path, port: u16, notify: &uri::Https, k: u32) -> Result<Victim, Verdict> {
+    let trace = dir.join("kill-trace");
+    let _ = std::fs::remove_file(&trace);
+    if std::fs::write(dir.join("ta.cer"), ca_cert_bytes(notify)).is_err() {
+        return Err(Verdict::Dropped("ta_cer_write_failed".into()));
+    }
+    let mut cmd = Command::new(rvchild_exe());
+    cmd.arg("rrdp-update").arg(dir).arg(notify.as_str()).arg(port.to_string());
+    cmd.env("ROUTINATOR_VERIF_KILL_TRACE", &trace);
+    if k > 0 {
+        cmd.env("ROUTINATOR_VERIF_KILL_AT", k.to_string());
+    } else {
+        cmd.env_remove("ROUTINATOR_VERIF_KILL_AT");
+    }
+    let pr = run_watchdog(cmd, dir, Duration::from_secs(180)).map_err(|e| Verdict::Dropped(format!("victim_spawn_failed:{}", truncate(&e, 60))))?;
+    if pr.watchdog {
+        return Err(Verdict::Dropped("victim_watchdog".into()));
+    }
+    let labels = read_trace(&trace);
+    if k > 0 {
+        if pr.signal == Some(libc::SIGABRT) {
+            return Ok(Victim { out: None, labels });
+        }
+        if pr.code == Some(0) {
+            return Err(Verdict::Dropped("kill_point_not_reached".into()));
+        }
+        return Err(Verdict::Dropped(format!("victim_exit_code_{:?}_signal_{:?}", pr.code, pr.signal)));
+    }
+    if pr.code != Some(0) {
+        return Err(Verdict::Dropped(format!("victim_exit_code_{:?}_signal_{:?}", pr.code, pr.signal)));
+    }
+    let line = String::from_utf8_lossy(&pr.stdout).lines().last().unwrap_or("").to_string();
+    match serde_json::from_str::<UpdateOut>(&line) {
+        Ok(out) => Ok(Victim { out: Some(out), labels }),
+        Err(_) => Err(Verdict::Dropped("victim_output_unparsable".into())),
+    }
+}
+
+/// Which storage operation encloses kill point `k` (1-based) of a trace: the `Storage::write` window it lies in,
+/// classified by its number of partial writes (1 = index entry / next pointer, 5 = header of a freed block,
+/// 8-9 = a whole object: 5 header fields, name, meta, data, padding), or a point outside any window.
+fn op_class(labels: &[String], k: u32) -> String {
+    let i = k as usize - 1;
+    if i >= labels.len() {
+        return "unknown".into();
+    }
+    let l = labels[i].as_str();
+    if !l.starts_with("archive.storage.write") {
+        return l.to_string();
+    }
+    let begin = if l == "archive.storage.write.begin" {
+        Some(i)
+    } else {
+        let mut found = None;
+        for j in (0..i).rev() {
+            if labels[j] == "archive.storage.write.begin" {
+                found = Some(j);
+                break;
+            }
+            if labels[j] == "archive.storage.write.end" {
+                break;
+            }
+        }
+        found
+    };
+    let Some(b) = begin else {
+        return if l == "archive.storage.write.chunk" { "snapshot-temp-archive-write".into() } else { "unknown".into() };
+    };
+    let mut e = b + 1;
+    let mut chunks = 0;
+    while e < labels.len() && labels[e] != "archive.storage.write.end" {
+        if labels[e] == "archive.storage.write.chunk" {
+            chunks += 1;
+        }
+        e += 1;
+    }
+    let what = match chunks {
+        1 => "index-entry-or-next-pointer",
+        5 => "freed-block-header",
+        8 | 9 => "whole-object",
+        _ => "other",
+    };
+    let pos = match l {
+        "archive.storage.write.begin" => "begin".to_string(),
+        "archive.storage.write.before_finish" => "all-written".to_string(),
+        "archive.storage.write.end" => "end".to_string(),
+        _ => {
+            let nth = labels[b..=i].iter().filter(|x| *x == "archive.storage.write.chunk").count();
+            if chunks >= 8 {
+                match nth {
+                    1..=5 => "in-header".to_string(),
+                    6 => "before-name".to_string(),
+                    7 => "before-meta".to_string(),
+                    8 => "before-data".to_string(),
+                    _ => "before-padding".to_string(),
+                }
+            } else {
+                format!("before-write-{}", nth)
+            }
+        }
+    };
+    format!("{}:{}", what, pos)
+}
+
+fn fail_key(what: &str, sc: &Scenario, label: &str, follow: &[Follow]) -> String {
+    format!("C24/{}/kind={}/kill={}/follow={}", what, sc.kind.name(), label, follow_names(follow))
+}
+
+/// Builds the v1 pre-state with the real collector and traces the kill points of the v1→v2 update.
+/// An uninterrupted update that breaks the success clause is reported as a failure of the case (k = 0).
+pub fn build_template(sc: &Scenario) -> Result<Template, Verdict> {
+    let dir = tempfile::Builder::new().prefix("c24-t-").tempdir_in(scratch_base()).expect("tmp");
+    let srv = HttpsServer::start();
+    let mut server = server_v0(sc);
+    let notify = server.notify_uri();
+    let config = c24_config(dir.path(), srv.port());
+    let apath = archive_path(&config, &notify);
+    // v0 by snapshot
+    install(&srv, &server, sc.etag);
+    let coll = new_collector(dir.path(), srv.port()).map_err(|e| Verdict::Dropped(format!("infra:{}", e)))?;
+    let out = client_update_with(&coll, ca_cert_bytes(&notify));
+    if out.result.starts_with("infra:") {
+        return Err(Verdict::Dropped(out.result));
+    }
+    if out.result != "updated" {
+        return Err(Verdict::Dropped(format!("prestate_v0_not_updated:{}", out.result)));
+    }
+    if let Some((what, msg)) = judge_updated(&out, &inspect(&apath, dir.path()), &ver(&server)) {
+        return Err(Verdict::fail(fail_key(what, sc, "none(pre-state v0 by snapshot)", &[]), msg));
+    }
+    // v1 by deltas
+    to_v1(&mut server, sc);
+    install(&srv, &server, sc.etag);
+    let _ = srv.take_log();
+    let out = client_update_with(&coll, ca_cert_bytes(&notify));
+    let log = srv.take_log();
+    drop(coll);
+    if out.result != "updated" {
+        return Err(Verdict::Dropped(format!("prestate_v1_not_updated:{}", out.result)));
+    }
+    if let Some((what, msg)) = judge_updated(&out, &inspect(&apath, dir.path()), &ver(&server)) {
+        return Err(Verdict::fail(fail_key(what, sc, "none(pre-state v1 by deltas)", &[]), msg));
+    }
+    let v1_path = if log.iter().any(|r| r.path.ends_with("/snapshot.xml")) { "snapshot" } else { "delta" };
+    let archive = std::fs::read(&apath).map_err(|e| Verdict::Dropped(format!("prestate_unreadable:{}", e)))?;
+    let v1 = (server.session, server.serial);
+    let v1_objects = server.objects.clone();
+    let v1_notification = server.notification_xml();
+    // pass 0: uninterrupted victim, traced
+    to_v2(&mut server, sc);
+    install(&srv, &server, sc.etag);
+    let v = run_victim(dir.path(), srv.port(), &notify, 0)?;
+    Ok(Template { archive, v1, v1_objects, v1_notification, labels: v.labels, v1_path })
+}
+
+//------------------------------------------------------------------------------------------
+// One case
+
+fn run_case_with(case: &Case, tpl: &Template, info: &mut CaseInfo) -> Verdict {
+    run_case_inner(case, tpl, info, None)
+}
+
+/// `second_trace`: run a second, uninterrupted victim after the first crash and hand back its kill-point labels.
+fn run_case_inner(case: &Case, tpl: &Template, info: &mut CaseInfo, second_trace: Option<&mut Vec<String>>) -> Verdict {
+    let sc = &case.sc;
+    let dir = tempfile::Builder::new().prefix("c24-").tempdir_in(scratch_base()).expect("tmp");
+    let srv = HttpsServer::start();
+    let mut server = server_v0(sc);
+    to_v1(&mut server, sc);
+    to_v2(&mut server, sc);
+    let v2_objects = server.objects.clone();
+    let notify = server.notify_uri();
+    install(&srv, &server, sc.etag);
+    let config = c24_config(dir.path(), srv.port());
+    let apath = archive_path(&config, &notify);
+    if let Some(p) = apath.parent() {
+        let _ = std::fs::create_dir_all(p);
+    }
+    if std::fs::write(&apath, &tpl.archive).is_err() {
+        return Verdict::Dropped("prestate_copy_failed".into());
+    }
+    info.class(format!("kind:{}", sc.kind.name()));
+
+    // --- the victim
+    let _ = srv.take_log();
+    let victim = match run_victim(dir.path(), srv.port(), &notify, case.k) {
+        Ok(v) => v,
+        Err(v) => return v,
+    };
+    let vlog = srv.take_log();
+    let label: String = if case.k == 0 { "none".to_string() } else { victim.labels.last().cloned().unwrap_or_else(|| "unknown".to_string()) };
+    if case.k > 0 {
+        if victim.labels.len() != case.k as usize {
+            return Verdict::Dropped("kill_trace_length_mismatch".into());
+        }
+        if tpl.labels.get(case.k as usize - 1) != Some(&label) {
+            info.class("kill-label-differs-from-pass-0");
+        }
+    }
+    info.class(format!("kill:{}", label));
+    if case.k > 0 && case.k2 == 0 {
+        info.class(format!("op:{}", op_class(&tpl.labels, case.k)));
+    }
+    let victim_deltas = vlog.iter().filter(|r| r.path.ends_with("/delta.xml") && r.status == 200).count();
+
+    // --- the copy the crash left behind (classification only)
+    let post = inspect(&apath, dir.path());
+    let state_is_v1 = matches!(&post.state, Ok(s) if *s == tpl.v1);
+    let post_class = if !post.exists {
+        "no-archive"
+    } else {
+        match (&post.objects, &post.state) {
+            (Ok(o), Ok(s)) if *o == tpl.v1_objects && *s == tpl.v1 => "v1-intact",
+            (Ok(o), Ok(s)) if *o == v2_objects && *s == (server.session, server.serial) => "v2-complete",
+            (Ok(o), Ok(_)) if state_is_v1 && *o == v2_objects => "v2-objects-under-v1-state",
+            (Ok(_), Ok(_)) if state_is_v1 => "partly-changed-under-v1-state",
+            (Ok(_), Ok(_)) => "other-state",
+            (Err(_), Ok(_)) => "objects-unreadable",
+            (_, Err(_)) => "state-unreadable",
+        }
+    };
+    if case.k > 0 {
+        info.class(format!("postkill:{}", post_class));
+        if !post.verify_ok && post.exists {
+            info.class("postkill:archive-fails-verify");
+        }
+    }
+    // non-trivial: killed inside a delta application after at least one object was changed
+    let changed = match &post.objects {
+        Ok(o) => *o != tpl.v1_objects,
+        Err(_) => post.exists,
+    };
+    let nontrivial = case.k > 0 && sc.kind != Kind::SnapshotOnly && victim_deltas >= 1 && label.starts_with("archive.storage") && state_is_v1 && changed;
+    info.nt(nontrivial);
+    if nontrivial {
+        info.class("nontrivial:killed-inside-delta-application-after-a-change");
+    }
+
+    // --- the uninterrupted victim is judged like any update
+    if let Some(out) = &victim.out {
+        info.class(format!("victim:{}", out.result));
+        if out.result == "updated" {
+            if let Some((what, msg)) = judge_updated(out, &post, &ver(&server)) {
+                return Verdict::fail(fail_key(what, sc, &label, &[]), format!("uninterrupted victim update v1→v2: {}", msg));
+            }
+        }
+    }
+
+    // --- a second victim on the copy the first crash left (same server version)
+    let mut label = label;
+    if case.k > 0 && (case.k2 > 0 || second_trace.is_some()) {
+        let k2 = if second_trace.is_some() { 0 } else { case.k2 };
+        let v2nd = match run_victim(dir.path(), srv.port(), &notify, k2) {
+            Ok(v) => v,
+            Err(v) => return v,
+        };
+        let _ = srv.take_log();
+        if let Some(t) = second_trace {
+            *t = v2nd.labels.clone();
+        }
+        if k2 > 0 {
+            if v2nd.labels.len() != k2 as usize {
+                return Verdict::Dropped("kill_trace_length_mismatch".into());
+            }
+            let l2 = v2nd.labels.last().cloned().unwrap_or_else(|| "unknown".to_string());
+            info.class(format!("kill2:{}", l2));
+            label = format!("{}+{}", label, l2);
+        }
+        if let Some(out) = &v2nd.out {
+            info.class(format!("second-victim:{}", out.result));
+            if out.result == "updated" {
+                if let Some((what, msg)) = judge_updated(out, &inspect(&apath, dir.path()), &ver(&server)) {
+                    return Verdict::fail(fail_key(what, sc, &label, &[]), format!("kill point {} ({}), copy left by the crash: {}; uninterrupted second update: {}", case.k, label, post_class, msg));
+                }
+            }
+        }
+    }
+
+    // --- the honest server continues
+    let mut recovered: Option<usize> = None;
+    // one collector for all follow-up updates, created after the crash (it holds no per-repository state)
+    let mut coll: Option<Collector> = None;
+    for (i, step) in case.follow.iter().enumerate() {
+        let done = &case.follow[..=i];
+        advance(&mut server, &step.adv);
+        install(&srv, &server, sc.etag);
+        // transient faults
+        let before = inspect(&apath, dir.path());
+        let needed: Vec<u64> = match &before.state {
+            Ok((sess, ser)) if *sess == server.session && *ser < server.serial => server.deltas.iter().map(|d| d.serial).filter(|s| s > ser).collect(),
+            _ => Vec::new(),
+        };
+        let mut inert = false;
+        let mut expect = ver(&server);
+        let snap = server.snapshot_xml();
+        let cut_delta = |serial: u64| {
+            if let Some(body) = server.delta_xml(serial) {
+                let n = body.len() * 3 / 4;
+                srv.set(HOST, &server.delta_path(serial), Resp::ok(body).drop_after(n));
+            }
+        };
+        match step.fault {
+            Fault::None => {}
+            Fault::N500 => srv.set(HOST, &server.notify_path(), Resp::status(500)),
+            Fault::NCut => {
+                let body = server.notification_xml();
+                let n = body.len() / 2;
+                srv.set(HOST, &server.notify_path(), Resp::ok(body).drop_after(n));
+            }
+            Fault::S500 => srv.set(HOST, &server.snapshot_path(), Resp::status(500)),
+            Fault::SCut => srv.set(HOST, &server.snapshot_path(), Resp::ok(snap.clone()).drop_after(snap.len() / 2)),
+            Fault::DFirst404 | Fault::DFirst404S500 => {
+                match needed.first() {
+                    Some(s) => srv.set(HOST, &server.delta_path(*s), Resp::status(404)),
+                    None => inert = true,
+                }
+                if step.fault == Fault::DFirst404S500 {
+                    srv.set(HOST, &server.snapshot_path(), Resp::status(500));
+                }
+            }
+            Fault::NStaleV1 => {
+                let body = tpl.v1_notification.clone();
+                let r = if sc.etag {
+                    let tag = format!("\"{}\"", &sha256_hex(&body)[..16]);
+                    Resp::ok(body).etag(&tag).conditional()
+                } else {
+                    Resp::ok(body)
+                };
+                srv.set(HOST, &server.notify_path(), r);
+                expect = Ver { session: tpl.v1.0, serial: tpl.v1.1, objects: tpl.v1_objects.clone() };
+            }
+            Fault::DLastCut | Fault::DLastCutS500 => {
+                match needed.last() {
+                    Some(s) => cut_delta(*s),
+                    None => inert = true,
+                }
+                if step.fault == Fault::DLastCutS500 {
+                    srv.set(HOST, &server.snapshot_path(), Resp::status(500));
+                }
+            }
+        }
+        if inert {
+            info.class("follow-fault-without-needed-delta");
+        }
+        let _ = srv.take_log();
+        if coll.is_none() {
+            match new_collector(dir.path(), srv.port()) {
+                Ok(c) => coll = Some(c),
+                Err(e) => return Verdict::Dropped(format!("infra:{}", e)),
+            }
+        }
+        let out = client_update_with(coll.as_ref().expect("collector"), ca_cert_bytes(&notify));
+        let log = srv.take_log();
+        if out.result.starts_with("infra:") {
+            return Verdict::Dropped(out.result);
+        }
+        let got304 = log.iter().any(|r| r.path == server.notify_path() && r.status == 304);
+        let snap_req = log.iter().any(|r| r.path.ends_with("/snapshot.xml"));
+        let delta_ok = log.iter().filter(|r| r.path.ends_with("/delta.xml") && r.status == 200).count();
+        let after = inspect(&apath, dir.path());
+        info.class(format!("follow:{}", step.name()));
+        match out.result.as_str() {
+            "updated" => {
+                if let Some((what, msg)) = judge_updated(&out, &after, &expect) {
+                    // a stale notification re-validating the copy a crash modified: C25's root cause, reached by a crash
+                    let what = if step.fault == Fault::NStaleV1 && what == "success-with-divergent-content" { WHAT_REUSE } else { what };
+                    return Verdict::fail(
+                        fail_key(what, sc, &label, done),
+                        format!(
+                            "kill point {} of {} ({}), copy left by the crash: {}; follow-up {} ({}): 304={} deltas fetched={} snapshot requested={}: {}",
+                            case.k,
+                            tpl.labels.len(),
+                            label,
+                            post_class,
+                            i + 1,
+                            step.name(),
+                            got304,
+                            delta_ok,
+                            snap_req,
+                            msg
+                        ),
+                    );
+                }
+                let how = if got304 {
+                    "not-modified"
+                } else if snap_req {
+                    "snapshot"
+                } else if delta_ok > 0 {
+                    "delta"
+                } else {
+                    "already-current"
+                };
+                info.class(format!("run:updated:{}", how));
+                if !after.verify_ok {
+                    info.class("run:updated-but-archive-fails-verify(content-correct)");
+                }
+                if recovered.is_none() {
+                    recovered = Some(i + 1);
+                }
+            }
+            "non-rrdp" => return Verdict::fail(fail_key("non-rrdp-repository", sc, &label, done), "rsync is disabled, yet a non-RRDP repository was handed out"),
+            "none" => {
+                info.class("run:not-updated");
+                if step.fault == Fault::None {
+                    info.class("run:clean-follow-up-not-updated");
+                }
+            }
+            "retry" => {
+                info.class(if apath.exists() { "run:failed-retry(archive-kept)" } else { "run:failed-retry(archive-removed)" });
+                if step.fault == Fault::None {
+                    info.class("run:clean-follow-up-failed");
+                }
+            }
+            "fatal" => {
+                info.class("run:failed-fatal");
+                if step.fault == Fault::None {
+                    info.class("run:clean-follow-up-failed");
+                }
+            }
+            other => return Verdict::Dropped(format!("unknown_result_{}", other)),
+        }
+    }
+    if std::env::var_os("RV_C24_DEBUG").is_some() {
+        eprintln!("C24DBG kind={} k={}/{} label={} post={} verify={} nt={} follow={} classes={:?}", sc.kind.name(), case.k, tpl.labels.len(), label, post_class, post.verify_ok, nontrivial, follow_names(&case.follow), info.classes.iter().filter(|c| c.starts_with("run:")).collect::<Vec<_>>());
+    }
+    if case.k > 0 && !case.follow.is_empty() {
+        match recovered {
+            Some(n) => info.class(format!("recovered-at-follow-up:{}", n)),
+            None => info.class("never-recovered"),
+        }
+    }
+    Verdict::Pass
+}
+
+/// Replays and directed cases build the pre-state themselves.
+fn run_case_full(case: &Case, info: &mut CaseInfo) -> Verdict {
+    match build_template(&case.sc) {
+        Ok(t) => run_case_with(case, &t, info),
+        Err(v) => v,
+    }
+}
+
+//------------------------------------------------------------------------------------------
+// Generators
+
+fn change() -> impl Strategy<Value = Change> {
+    (0..N_URIS, prop::option::weighted(0.78, 0..N_SIZES))
+}
+
+fn delta(min: usize, max: usize) -> impl Strategy<Value = Delta> {
+    prop::collection::vec(change(), min..=max).prop_map(|mut d| {
+        // one element per URI and delta (what the publisher model emits anyway)
+        let mut seen = BTreeSet::new();
+        d.retain(|(u, _)| seen.insert(*u));
+        d
+    })
+}
+
+fn advance_strategy() -> impl Strategy<Value = Advance> {
+    prop_oneof![
+        4 => Just(Advance::Same),
+        4 => prop::collection::vec(delta(1, 3), 1..=2).prop_map(Advance::Deltas),
+        1 => delta(1, 2).prop_map(Advance::Withheld),
+        1 => prop::option::of(delta(1, 2)).prop_map(Advance::NewSession),
+    ]
+}
+
+fn fault_strategy() -> impl Strategy<Value = Fault> {
+    prop_oneof![
+        4 => Just(Fault::None),
+        1 => Just(Fault::N500),
+        1 => Just(Fault::NCut),
+        2 => Just(Fault::S500),
+        1 => Just(Fault::SCut),
+        1 => Just(Fault::DFirst404),
+        1 => Just(Fault::DLastCut),
+        2 => Just(Fault::DFirst404S500),
+        2 => Just(Fault::DLastCutS500),
+    ]
+}
+
+fn plan_strategy() -> impl Strategy<Value = Vec<Follow>> {
+    prop::collection::vec((advance_strategy(), fault_strategy()).prop_map(|(adv, fault)| Follow { adv, fault }), 1..=3).prop_map(|mut p| {
+        // the last update of a plan meets no fault, so recovery is observed
+        if let Some(l) = p.last_mut() {
+            l.fault = Fault::None;
+        }
+        p
+    })
+}
+
+/// A change that really alters object 0 relative to `objects`.
+fn real_change(objects: &BTreeMap<String, Bytes>) -> Change {
+    let cur = objects.get(&obj_uri(0));
+    for c in 0..N_SIZES {
+        if cur != Some(&content(0, c)) {
+            return (0, Some(c));
+        }
+    }
+    (0, None)
+}
+
+pub fn gen_strategy(kind: Kind) -> impl Strategy<Value = Gen> {
+    let v2 = match kind {
+        Kind::SnapshotOnly => prop::collection::vec(delta(1, 4), 1..=2).boxed(),
+        Kind::SingleDelta => prop::collection::vec(delta(4, 8), 1..=1).boxed(),
+        Kind::MultiDelta => prop::collection::vec(delta(1, 4), 2..=4).boxed(),
+        Kind::DeltaThenNewSession => prop::collection::vec(delta(2, 5), 1..=1).boxed(),
+    };
+    (any::<u64>(), any::<bool>(), prop::collection::vec((0..N_URIS, 0..N_SIZES), 4..=8), prop::collection::vec(delta(1, 4), 1..=3), v2, prop::collection::vec(plan_strategy(), 6..=6), any::<u64>()).prop_map(move |(seed, etag, v0, v1, v2, mut plans, sample_seed)| {
+        let mut sc = Scenario { seed, kind, etag, v0, v1, v2 };
+        // every version differs from its predecessor
+        let mut s = server_v0(&sc);
+        let o0 = s.objects.clone();
+        to_v1(&mut s, &sc);
+        if s.objects == o0 {
+            let c = real_change(&s.objects);
+            sc.v1.push(vec![c]);
+            s.apply(&to_changes(&vec![c]));
+        }
+        let o1 = s.objects.clone();
+        for d in &sc.v2 {
+            s.apply(&to_changes(d));
+        }
+        if s.objects == o1 {
+            let c = real_change(&s.objects);
+            sc.v2.last_mut().expect("v2 has a delta").retain(|(u, _)| *u != 0);
+            sc.v2.last_mut().expect("v2 has a delta").push(c);
+        }
+        // fixed plans beside the generated ones
+        plans.push(vec![Follow { adv: Advance::Same, fault: Fault::None }]);
+        plans.push(vec![Follow { adv: Advance::Same, fault: Fault::DLastCutS500 }, Follow { adv: Advance::Same, fault: Fault::None }]);
+        plans.push(vec![Follow { adv: Advance::Deltas(vec![vec![(1, Some(2))]]), fault: Fault::S500 }, Follow { adv: Advance::Same, fault: Fault::None }]);
+        if kind == Kind::DeltaThenNewSession {
+            for p in plans.iter_mut() {
+                if !matches!(p[0].adv, Advance::NewSession(_)) {
+                    let d = match &p[0].adv {
+                        Advance::Deltas(ds) => ds.first().cloned(),
+                        Advance::Withheld(d) => Some(d.clone()),
+                        _ => None,
+                    };
+                    p[0].adv = Advance::NewSession(d);
+                }
+            }
+        }
+        Gen { sc, plans, sample_seed }
+    })
+}
+
+fn splitmix(x: &mut u64) -> u64 {
+    *x = x.wrapping_add(0x9E37_79B9_7F4A_7C15);
+    let mut z = *x;
+    z = (z ^ (z >> 30)).wrapping_mul(0xBF58_476D_1CE4_E5B9);
+    z = (z ^ (z >> 27)).wrapping_mul(0x94D0_49BB_1331_11EB);
+    z ^ (z >> 31)
+}
+
+/// The kill points to run: all when M ≤ MAX_POINTS, else first/last 20, every label change, and a sample
+/// drawn with the scenario's generated sampling seed.
+fn select_points(labels: &[String], sample_seed: u64) -> (Vec<u32>, bool) {
+    let m = labels.len();
+    if m <= MAX_POINTS {
+        return ((1..=m as u32).collect(), true);
+    }
+    let mut set: BTreeSet<u32> = BTreeSet::new();
+    for k in 1..=20.min(m) {
+        set.insert(k as u32);
+        set.insert((m - k + 1) as u32);
+    }
+    for k in 1..m {
+        if labels[k] != labels[k - 1] {
+            set.insert(k as u32 + 1);
+        }
+    }
+    let mut x = sample_seed;
+    let mut guard = 0;
+    while set.len() < MAX_POINTS && guard < 100 * MAX_POINTS {
+        set.insert((splitmix(&mut x) % m as u64) as u32 + 1);
+        guard += 1;
+    }
+    (set.into_iter().collect(), false)
+}
+
+//------------------------------------------------------------------------------------------
+// Driver
+
+fn count_case(rep: &mut Report, tagged: &Tagged<Case>, info: &CaseInfo) {
+    let h = hash_case(tagged);
+    rep.evaluations += 1;
+    rep.distinct.insert(h);
+    if info.nontrivial {
+        rep.distinct_nontrivial.insert(h);
+    }
+    for c in &info.classes {
+        rep.count_class(c);
+    }
+}
+
+/// Hand-rolled shrinking of a failing case: fewer follow-ups, then plainer ones, keeping the key's class.
+fn shrink(case: &Case, tpl: &Template, what: &str) -> (Case, String, String) {
+    let fails = |c: &Case| -> Option<(String, String)> {
+        let mut info = CaseInfo::default();
+        match run_case_with(c, tpl, &mut info) {
+            Verdict::Fail { key, msg } if key.starts_with(&format!("C24/{}/", what)) => Some((key, msg)),
+            _ => None,
+        }
+    };
+    let mut best = case.clone();
+    let mut res = fails(&best);
+    // shortest failing prefix
+    for n in 1..best.follow.len() {
+        let mut c = best.clone();
+        c.follow.truncate(n);
+        if let Some(r) = fails(&c) {
+            best = c;
+            res = Some(r);
+            break;
+        }
+    }
+    // plainer steps
+    for i in 0..best.follow.len() {
+        if best.follow[i].fault != Fault::None {
+            let mut c = best.clone();
+            c.follow[i].fault = Fault::None;
+            if let Some(r) = fails(&c) {
+                best = c;
+                res = Some(r);
+            }
+        }
+        if best.follow[i].adv != Advance::Same && !matches!(best.follow[i].adv, Advance::NewSession(_)) {
+            let mut c = best.clone();
+            c.follow[i].adv = Advance::Same;
+            if let Some(r) = fails(&c) {
+                best = c;
+                res = Some(r);
+            }
+        }
+    }
+    let (key, msg) = res.unwrap_or_else(|| ("unstable".into(), "shrunk case did not fail again".into()));
+    (best, key, msg)
+}
+
+fn what_of(key: &str) -> String {
+    key.split('/').nth(1).unwrap_or("").to_string()
+}
+
+/// Hand-written scenarios that pin the storage paths the generated ones reach only by chance: publish appended
+/// at the end of the file then withdrawn (truncation), re-allocation into an exactly fitting freed block,
+/// growth of the state record across a page class (delete + re-publish of `state`).
+fn directed_gens() -> Vec<(String, Gen)> {
+    let plans = vec![
+        vec![Follow { adv: Advance::Same, fault: Fault::None }],
+        vec![Follow { adv: Advance::Same, fault: Fault::DLastCutS500 }, Follow { adv: Advance::Same, fault: Fault::None }],
+        vec![Follow { adv: Advance::Deltas(vec![vec![(1, Some(0)), (4, None)]]), fault: Fault::None }],
+        vec![Follow { adv: Advance::Same, fault: Fault::S500 }, Follow { adv: Advance::Deltas(vec![vec![(2, Some(1))]]), fault: Fault::DFirst404 }, Follow { adv: Advance::Same, fault: Fault::None }],
+        vec![Follow { adv: Advance::NewSession(Some(vec![(3, Some(2))])), fault: Fault::SCut }, Follow { adv: Advance::Same, fault: Fault::None }],
+        vec![Follow { adv: Advance::Withheld(vec![(5, None)]), fault: Fault::None }],
+    ];
+    let truncate = Scenario {
+        seed: 0x00c2_4001,
+        kind: Kind::MultiDelta,
+        etag: true,
+        v0: vec![(0, 0), (1, 1), (2, 3), (3, 4), (4, 2)],
+        v1: vec![vec![(0, Some(1))], vec![(5, Some(3))]],
+        v2: vec![vec![(6, Some(4)), (1, Some(2))], vec![(6, None), (2, Some(5))], vec![(7, Some(3)), (3, None)], vec![(7, Some(5)), (0, Some(0))]],
+    };
+    let state_growth = Scenario {
+        seed: 0x00c2_4002,
+        kind: Kind::MultiDelta,
+        etag: false,
+        v0: vec![(0, 1), (1, 2), (2, 0)],
+        v1: vec![vec![(3, Some(1))]],
+        v2: vec![vec![(0, Some(2))], vec![(4, Some(3))], vec![(1, None)], vec![(2, Some(1))], vec![(5, Some(0))], vec![(0, Some(0))], vec![(3, Some(4))]],
+    };
+    // ten deltas of four changes each: more than MAX_POINTS kill points, so the sampling rule is exercised (thorough tier)
+    let mut long_v2: Vec<Delta> = Vec::new();
+    for i in 0..10u8 {
+        long_v2.push(vec![(i % N_URIS, Some((i + 1) % N_SIZES)), ((i + 3) % N_URIS, Some((i + 4) % N_SIZES)), ((i + 5) % N_URIS, if i % 3 == 2 { None } else { Some(i % N_SIZES) }), ((i + 6) % N_URIS, Some((i + 2) % N_SIZES))]);
+    }
+    let long = Scenario { seed: 0x00c2_4003, kind: Kind::MultiDelta, etag: true, v0: vec![(0, 0), (1, 1), (2, 2), (3, 3), (4, 4), (5, 5)], v1: vec![vec![(6, Some(1)), (0, Some(2))]], v2: long_v2 };
+    vec![
+        ("directed-truncate".to_string(), Gen { sc: truncate, plans: plans.clone(), sample_seed: 1 }),
+        ("directed-state-growth".to_string(), Gen { sc: state_growth, plans: plans.clone(), sample_seed: 2 }),
+        ("directed-long".to_string(), Gen { sc: long, plans, sample_seed: 3 }),
+    ]
+}
+
+struct Drive {
+    workers: usize,
+    all_points: bool,
+    scen_meta: Vec<serde_json::Value>,
+    label_hist: BTreeMap<String, u64>,
+    reported: BTreeSet<String>,
+}
+
+/// Records the verdicts of one batch; unknown failures are shrunk and reported once per shape.
+fn absorb(ctx: &Ctx, rep: &mut Report, d: &mut Drive, tpl: &Template, sub: &str, cases: &[Case], results: Vec<(CaseInfo, Verdict)>) {
+    for (case, (info, verdict)) in cases.iter().zip(results) {
+        let tagged = Tagged { sub: sub.to_string(), case: case.clone() };
+        match verdict {
+            Verdict::Fail { key, msg } => {
+                count_case(rep, &tagged, &info);
+                if !ctx.strict && ctx.known_key(&key).is_some() {
+                    rep.failure(ctx, &tagged, &key, &msg);
+                    continue;
+                }
+                // one report per failing shape (what + kind + kill label), shrunk
+                let shape = key.rsplit_once("/follow=").map(|x| x.0.to_string()).unwrap_or(key.clone());
+                if d.reported.insert(shape) && d.reported.len() <= 5 {
+                    let (small, k2, m2) = shrink(case, tpl, &what_of(&key));
+                    let (k2, m2) = if k2 == "unstable" { (key.clone(), msg.clone()) } else { (k2, m2) };
+                    let tagged = Tagged { sub: sub.to_string(), case: small };
+                    rep.failure(ctx, &tagged, &k2, &m2);
+                }
+            }
+            other => rep.record(ctx, &tagged, &info, &other),
+        }
+    }
+}
+
+const POST_CLASSES: [&str; 7] = ["partly-changed-under-v1-state", "state-unreadable", "v2-objects-under-v1-state", "objects-unreadable", "no-archive", "v2-complete", "v1-intact"];
+/// classes of copy left behind that get a second-crash pass (v1-intact would repeat the first pass)
+const SECOND_ALL: [&str; 6] = ["partly-changed-under-v1-state", "state-unreadable", "v2-objects-under-v1-state", "objects-unreadable", "no-archive", "v2-complete"];
+
+/// Enumerates the kill points of one scenario. Returns false when the campaign is to stop (violation).
+fn enumerate(ctx: &Ctx, rep: &mut Report, d: &mut Drive, name: &str, si: usize, g: &Gen, reps: usize, second_classes: &[&str], related: bool) -> bool {
+    let tpl = match build_template(&g.sc) {
+        Ok(t) => t,
+        Err(Verdict::Fail { key, msg }) => {
+            let tagged = Tagged { sub: "uninterrupted".to_string(), case: Case { sc: g.sc.clone(), k: 0, k2: 0, follow: vec![] } };
+            count_case(rep, &tagged, &CaseInfo::default());
+            rep.failure(ctx, &tagged, &key, &msg);
+            return false;
+        }
+        Err(Verdict::Dropped(why)) => {
+            *rep.dropped.entry(format!("template:{}", why)).or_default() += 1;
+            return true;
+        }
+        Err(Verdict::Pass) => unreachable!(),
+    };
+    let m = tpl.labels.len();
+    if m == 0 {
+        *rep.dropped.entry("template:no_kill_points_traced".to_string()).or_default() += 1;
+        return true;
+    }
+    for l in &tpl.labels {
+        *d.label_hist.entry(l.clone()).or_default() += 1;
+    }
+    let (points, complete) = select_points(&tpl.labels, g.sample_seed);
+    d.all_points &= complete;
+    let mut cases: Vec<Case> = Vec::new();
+    // k = 0: the uninterrupted update followed by each plan once
+    for p in &g.plans {
+        cases.push(Case { sc: g.sc.clone(), k: 0, k2: 0, follow: p.clone() });
+    }
+    for (pi, k) in points.iter().enumerate() {
+        for j in 0..reps {
+            let plan = &g.plans[(pi * reps + j + si) % g.plans.len()];
+            cases.push(Case { sc: g.sc.clone(), k: *k, k2: 0, follow: plan.clone() });
+        }
+    }
+    let workers = d.workers;
+    let results: Vec<(CaseInfo, Verdict)> = parallel_map(cases.len(), workers, |i| {
+        let mut info = CaseInfo::default();
+        let v = run_case_with(&cases[i], &tpl, &mut info);
+        (info, v)
+    });
+    // first kill point per class of copy left behind (for the second-crash pass and the related probe)
+    let mut first_of: BTreeMap<&'static str, u32> = BTreeMap::new();
+    let mut first_nt: Option<u32> = None;
+    for (case, (info, _)) in cases.iter().zip(results.iter()) {
+        if case.k == 0 {
+            continue;
+        }
+        for pc in POST_CLASSES {
+            if info.classes.iter().any(|c| c == &format!("postkill:{}", pc)) {
+                first_of.entry(pc).or_insert(case.k);
+            }
+        }
+        if info.nontrivial && first_nt.is_none() {
+            first_nt = Some(case.k);
+        }
+    }
+    let n_single = cases.len();
+    absorb(ctx, rep, d, &tpl, "enumeration", &cases, results);
+    let mut meta = serde_json::json!({"scenario": name, "kind": g.sc.kind.name(), "etag": g.sc.etag, "kill_points": m, "points_run": points.len(), "all_points": complete, "cases": n_single, "v1_reached_by": tpl.v1_path, "v2_deltas": g.sc.v2.len()});
+    if rep.violated() {
+        d.scen_meta.push(meta);
+        return false;
+    }
+
+    // --- second crash: a second victim is killed at every point of its update on the copy the first crash left
+    let mut second = Vec::new();
+    for pc in second_classes.iter().filter(|pc| first_of.contains_key(*pc)) {
+        let k1 = first_of[pc];
+        let mut labels2 = Vec::new();
+        let mut info = CaseInfo::default();
+        let probe = Case { sc: g.sc.clone(), k: k1, k2: 0, follow: vec![] };
+        match run_case_inner(&probe, &tpl, &mut info, Some(&mut labels2)) {
+            Verdict::Pass => {}
+            Verdict::Dropped(why) => {
+                *rep.dropped.entry(format!("second-trace:{}", why)).or_default() += 1;
+                continue;
+            }
+            Verdict::Fail { key, msg } => {
+                let tagged = Tagged { sub: "second-crash".to_string(), case: probe };
+                count_case(rep, &tagged, &info);
+                rep.failure(ctx, &tagged, &key, &msg);
+                d.scen_meta.push(meta);
+                return false;
+            }
+        }
+        for l in &labels2 {
+            *d.label_hist.entry(l.clone()).or_default() += 1;
+        }
+        let (points2, complete2) = select_points(&labels2, g.sample_seed ^ k1 as u64);
+        d.all_points &= complete2;
+        let cases2: Vec<Case> = points2.iter().enumerate().map(|(pi, k2)| Case { sc: g.sc.clone(), k: k1, k2: *k2, follow: g.plans[(pi + si) % g.plans.len()].clone() }).collect();
+        let results2: Vec<(CaseInfo, Verdict)> = parallel_map(cases2.len(), workers, |i| {
+            let mut info = CaseInfo::default();
+            let v = run_case_with(&cases2[i], &tpl, &mut info);
+            (info, v)
+        });
+        second.push(serde_json::json!({"first_kill": k1, "copy_left": pc, "kill_points_of_second_update": labels2.len(), "points_run": points2.len()}));
+        absorb(ctx, rep, d, &tpl, "second-crash", &cases2, results2);
+        if rep.violated() {
+            break;
+        }
+    }
+    if !second.is_empty() {
+        meta["second_crash"] = serde_json::json!(second);
+    }
+    d.scen_meta.push(meta);
+    if rep.violated() {
+        return false;
+    }
+
+    // --- relation to C25's finding: the copy a crash leaves is the copy a failed delta update leaves
+    if related {
+        if let Some(k) = first_nt {
+            let case = Case { sc: g.sc.clone(), k, k2: 0, follow: vec![Follow { adv: Advance::Same, fault: Fault::NStaleV1 }] };
+            let mut info = CaseInfo::default();
+            let v = run_case_with(&case, &tpl, &mut info);
+            let tagged = Tagged { sub: "related-stale-notification".to_string(), case: case.clone() };
+            match v {
+                Verdict::Fail { key, msg } => {
+                    count_case(rep, &tagged, &info);
+                    let same_root = key.starts_with(&format!("C24/{}/", WHAT_REUSE));
+                    if !ctx.strict && ctx.known_key(&key).is_none() && same_root && is_listed_known("C25", crate::c25::KEY_REUSE) {
+                        println!("RELATED-KNOWN-FINDING: property=C25 key={} reproduced through a crash by C24 as {} :: {}", crate::c25::KEY_REUSE, key, truncate(&msg, 600));
+                        rep.extra.insert("related_known_finding".into(), serde_json::json!({"property": "C25", "key": crate::c25::KEY_REUSE, "seen_as": key, "reproduced": true, "note": "the continuation is a stale notification (not an honest further version), so this is outside C24's quantifier while C25 lists the root cause; judged as a C24 failure once C25's entry is no longer listed"}));
+                    } else {
+                        rep.failure(ctx, &tagged, &key, &msg);
+                    }
+                }
+                other => {
+                    rep.record(ctx, &tagged, &info, &other);
+                    rep.extra.insert("related_known_finding".into(), serde_json::json!({"property": "C25", "key": crate::c25::KEY_REUSE, "reproduced": false}));
+                }
+            }
+        }
+    }
+    !rep.violated()
+}
+
+pub fn run(ctx: &Ctx, rep: &mut Report, replay: Option<&serde_json::Value>) {
+    rep.level = "fault_enumeration".into();
+    rep.rule("per scenario (publisher history v0→v1→v2 over 8 URIs x 6 content sizes; generated kinds snapshot-only / single multi-element delta / 2-4 deltas / delta then new session, plus hand-written multi-delta scenarios pinning end-of-file truncation, exact-fit reuse of freed blocks and re-allocation of the state record (thorough: also a ten-delta one with M > 400); pre-state = routinator's own copy at v1 made by snapshot + delta update) pass 0 traces the M kill points (verif::kill_point: every partial write of an archive object or index entry, truncation, finalize of the snapshot archive, remove/rename of the snapshot swap, deletion of a corrupt archive) of the client update v1→v2 performed by a child process; the child is re-run from a copy of the same pre-state and abort()ed at point k for every k in 0..=M (M > 400: first/last 20, every label change, seeded sample), each k with 2 follow-up plans (quick: 1 for the generated scenarios) of 1-3 further in-process updates against the honest server (same version / more deltas / deltas withheld / new session; earlier updates optionally meet notification 500/cut, snapshot 500/cut, first delta 404, last delta cut, delta+snapshot failing; ETag with truthful 304 in about half of the scenarios); second-crash pass: for the first kill point of each class of copy left behind (quick: 2 classes of each hand-written scenario; thorough: all classes of the hand-written and of 3 generated scenarios per kind) a second victim update is traced and killed at every one of its points, followed by one plan; oracle on every update that hands out an RRDP repository: archive objects (routinator's reader on a copy of the file) == server objects at the notified session+serial byte for byte, state record names them, load_object agrees for all 8 URIs; Ok(None)/failed run = not updated; non-trivial = killed at an archive.storage.* point of a delta-path update that had fetched >= 1 delta, the copy left behind still carries the v1 state record and its objects differ from v1 (or are unreadable); distinct by (scenario, k, k2, follow-up plan)");
+    rep.assume("abort() at a hook point stands for SIGKILL: writes already issued (incl. stores into the MAP_SHARED mapping) survive in the page cache, nothing else does; power-loss reordering / lost page-cache contents are out of scope; kill points have the granularity of routinator's own write calls (one header field, name, meta, data, padding per call), a kill inside one memcpy is not modelled");
+    rep.assume("the publisher model (httpsrv::RrdpServer) renders RFC 8182 files as rpki::rrdp parses them and is honest after the crash: serials only grow within a session, 304 only for the ETag of the notification currently served, every served file matches its listed hash; transient faults are plain HTTP errors or cut connections");
+    rep.assume("'not updated' is observed as Run::repository == Ok(None) (rsync disabled) or a failed run; the statement has no liveness clause, so updates that stay unsuccessful are counted (classes run:clean-follow-up-*) but are not violations; Archive::verify failing on a copy whose content is correct is counted, not judged");
+    if let Some(v) = replay {
+        let t: Tagged<Case> = serde_json::from_value(v.clone()).expect("replay");
+        run_case(ctx, rep, &t.sub, &t.case, run_case_full);
+        return;
+    }
+    let per_kind = ctx.tier.pick(1usize, 10usize);
+    let mut d = Drive { workers: 12, all_points: true, scen_meta: Vec::new(), label_hist: BTreeMap::new(), reported: BTreeSet::new() };
+    let mut go = true;
+    // hand-written scenarios first: the first one also carries the second-crash pass of the quick tier and the related probe
+    // RV_C24_ONLY=<scenario name> restricts a run to one scenario (debugging aid; evidence then covers only that one)
+    let only = std::env::var("RV_C24_ONLY").ok();
+    let wanted = |name: &str| only.as_deref().map(|o| o == name).unwrap_or(true);
+    for (i, (name, g)) in directed_gens().iter().enumerate() {
+        if !go {
+            break;
+        }
+        if !wanted(name) || (name == "directed-long" && ctx.tier == Tier::Quick && only.is_none()) {
+            continue;
+        }
+        let second: &[&str] = match (ctx.tier, i) {
+            (Tier::Quick, 0) => &["partly-changed-under-v1-state", "v2-complete"],
+            (Tier::Quick, _) => &["state-unreadable", "v2-objects-under-v1-state"],
+            _ => &SECOND_ALL,
+        };
+        go = enumerate(ctx, rep, &mut d, name, i, g, 2, second, i == 0);
+    }
+    'outer: for kind in KINDS {
+        if !go {
+            break;
+        }
+        let gens = sample_strategy(&gen_strategy(kind), ctx.seed_for(&format!("scenarios/{}", kind.name())), per_kind);
+        for (si, g) in gens.iter().enumerate() {
+            let second: &[&str] = if ctx.tier == Tier::Thorough && si < 3 { &SECOND_ALL } else { &[] };
+            if !wanted(&format!("generated-{}-{}", kind.name(), si)) {
+                continue;
+            }
+            if !enumerate(ctx, rep, &mut d, &format!("generated-{}-{}", kind.name(), si), si, g, ctx.tier.pick(1, 2), second, false) {
+                break 'outer;
+            }
+        }
+    }
+    rep.extra.insert("scenarios".into(), serde_json::json!(d.scen_meta));
+    rep.extra.insert("kill_point_labels_traced".into(), serde_json::json!(d.label_hist));
+    rep.extra.insert("out_of_scope".into(), serde_json::json!("power-loss reordering (un-synced page cache), kills inside a single write call"));
+    rep.exhaustive = Some(d.all_points && !rep.violated() && rep.dropped.is_empty());
+    let total: u64 = rep.evaluations;
+    let dropped: u64 = rep.dropped.values().sum();
+    if total == 0 || dropped * 2 > total {
+        eprintln!("C24: {} of {} cases dropped ({:?}) — infrastructure problem, no verdict", dropped, total, rep.dropped);
+        write_evidence(ctx, rep);
+        std::process::exit(2);
+    }
 }
